@@ -202,7 +202,11 @@ def opNp : J.Op := fun j => do
     let b ← J.field j "b" (J.list J.nat)
     let bits ← J.field j "bits" J.nat
     let signed ← J.field j "signed" J.bool
-    pure <| J.ofList J.ofInt (countProductAsIs bits signed a b)
+    pure <| J.ofList J.ofInt (countProductPrerepair bits signed a b)
+  | "mul64" =>
+    let a ← J.field j "a" (J.list J.nat)
+    let b ← J.field j "b" (J.list J.nat)
+    pure <| J.ofList J.ofInt (countProduct a b)
   | "zfill" =>
     let ns ← J.field j "ns" (J.list J.nat)
     pure <| J.ofList J.ofStr (ns.map (fun n => strOf (zfill7 n)))
